@@ -106,6 +106,18 @@ RowOK(r) ==
                               exp == IF K.ttype = "D" THEN TwistD(F12, K.s, A(r.P))
                                                       ELSE TwistM(F12, K.s, A(r.P))
                           IN WF(F12, r.rep, r.r) /\ img = exp /\ OnCurve(C12, img)
+    [] r.op = "twadd"  -> \* homomorphism on the degree-12 curve: add(twist(P), twist(Q)) computed by the module's
+                          \* own add over F_p^12 is twist(P + Q); also multiply(twist(P), n) = twist(n P)
+                          LET K   == CurvesJ[r.c]
+                              F12 == Fields[K.f12]
+                              C12 == Crv(r.c12)
+                              Tw(X) == IF K.ttype = "D" THEN TwistD(F12, K.s, X) ELSE TwistM(F12, K.s, X)
+                              img == Abs(C12, r.rep, r.r)
+                              sum == IF r.n = <<>> THEN PAdd(C, A(r.P), A(r.Q)) ELSE MulBits(C, A(r.P), r.n)
+                          IN /\ WF(F12, r.rep, r.r)
+                             /\ img = Tw(sum)
+                             /\ (IF r.n = <<>> THEN img = PAdd(C12, Tw(A(r.P)), Tw(A(r.Q)))      \* ... and the spec's twist is additive
+                                 ELSE TRUE)
     [] r.op = "jadd"   -> WF(F, "jac", r.r)
                           /\ JacToAff(C, r.r) = PAdd(C, JacToAff(C, r.P), JacToAff(C, r.Q))
     [] r.op = "jdouble"-> WF(F, "jac", r.r)
